@@ -2,12 +2,13 @@ use crate::engine::Property;
 
 pub mod c01;
 pub mod c02;
+pub mod c03;
 pub mod c05;
 pub mod c11;
 pub mod c12;
 
 pub fn all() -> Vec<Property> {
-    vec![c01::property(), c02::property(), c05::property(), c11::property(), c12::property()]
+    vec![c01::property(), c02::property(), c03::property(), c05::property(), c11::property(), c12::property()]
 }
 
 pub fn extra_command(_cmd: &str, _args: &[String]) -> Option<i32> {
